@@ -34,3 +34,64 @@ contract(TR + "query_ast_visitor.code_fill_ttree#scalar", props=["C05", "C01", "
                   ("fill_scope_only_deepens@C05,C01",
                    "result == scope_fill or (is_new(result) and seq_eq(stack_of(result), cursor(self)) and starts(result, scope_fill))"),
                   ("nothing_else_written", "monotone('_statements') and stable_except('_scope_stack', gc_of(self))")])
+# ---- vector column (a sequence of plain values): one push_back of the element into the column, where the element is visible (or at the fill
+# scope when the element was computed above it); the fill scope is returned unchanged -------------------------------------------------------------
+PUSHB = "func_adl_xAOD.common.statement.push_back"
+contract(TR + "query_ast_visitor.code_fill_ttree#vector", props=["C05", "C01", "C03"],
+         params=dict(self=QV, e_rep=RefOf(SEQ_CLS), e_name=VAL, scope_fill=RefOf(SCOPE)), result=RefOf(SCOPE),
+         requires=CVC_REQUIRES + [("vector_column", "e_rep != None and live(e_rep) and field(e_rep, '_sequence') != None and live(field(e_rep, '_sequence')) and "
+                                                   "isinst(field(e_rep, '_sequence'), '" + P + "cpp_representation.cpp_value')"),
+                                  ("scopes", "scope_fill != None and live(scope_fill) and field(e_rep, '_scope', '" + SEQ_CLS + "') != None and live(field(e_rep, '_scope', '" + SEQ_CLS + "'))"),
+                                  ("storage", "e_name != None and live(e_name)"),
+                                  ("cursor", "len(cursor(self)) >= 1 and all(b != None and live(b) for b in cursor(self))"),
+                                  ("open_blocks", "all(b != None and live(b) for b in stack_of(scope_fill)) and len(stack_of(scope_fill)) >= 1 and "
+                                                  "all(b != None and live(b) for b in stack_of(field(e_rep, '_scope', '" + SEQ_CLS + "'))) and "
+                                                  "len(stack_of(field(e_rep, '_scope', '" + SEQ_CLS + "'))) >= 1")],
+         modifies=["_scope_stack", "_statements", "_collection", "_element", "_target", "_value", "alloc"],
+         may_raise=["Exception"], strict=False,
+         local_sorts=dict(g_blk=RefOf(BLOCK), g_n=Int), ghost_init=["g_blk = None", "g_n = 0"],
+         ghost={"after:self._gc.add_statement(statement.push_back(accumulator, inner))": ["g_blk = top_block(cursor(self))", "g_n = len(field(g_blk, '_statements')) - 1"]},
+         ensures=[("pushed_where_the_element_is_visible_or_at_the_fill_scope@C05,C01",
+                   "seq_eq(cursor(self), (old(cursor(self))[0:1] if is_top(seq_fill_target(e_rep, scope_fill)) else stack_of(seq_fill_target(e_rep, scope_fill))))"),
+                  ("one_push_back_of_the_element_into_the_column@C03,C05",
+                   "final_g_blk != None and final_g_blk == top_block(cursor(self)) and len(field(final_g_blk, '_statements')) == final_g_n + 1 and "
+                   "final_g_n == len(old(field(final_g_blk, '_statements'))) and "
+                   "cls_is(last_stmt(final_g_blk), '" + PUSHB + "') and is_new(last_stmt(final_g_blk)) and "
+                   "field(last_stmt(final_g_blk), '_target') == e_name and field(last_stmt(final_g_blk), '_value') == field(e_rep, '_sequence')"),
+                  ("fill_scope_unchanged@C05", "result == scope_fill"),
+                  ("nothing_else_written", "monotone('_statements') and stable_except('_scope_stack', gc_of(self))")])
+
+
+def seq_fill_target(e_rep, scope_fill):
+    return field(e_rep, "_scope", "func_adl_xAOD.common.cpp_representation.cpp_sequence") if starts(field(e_rep, "_scope", "func_adl_xAOD.common.cpp_representation.cpp_sequence"), scope_fill) else scope_fill
+
+# ---- jagged column (a sequence of sequences of plain values): a new block-local vector is declared for the inner level, the inner elements are
+# pushed into it, and IT is pushed into the column -----------------------------------------------------------------------------------------------
+contract(TR + "query_ast_visitor.code_fill_ttree#nested", props=["C05", "C03"],
+         params=dict(self=QV, e_rep=RefOf(SEQ_CLS), e_name=VAL, scope_fill=RefOf(SCOPE)), result=RefOf(SCOPE),
+         requires=CVC_REQUIRES + [("jagged_column", "e_rep != None and live(e_rep) and field(e_rep, '_sequence') != None and live(field(e_rep, '_sequence')) and "
+                                                   "isinst(field(e_rep, '_sequence'), '" + SEQ_CLS + "') and field(field(e_rep, '_sequence'), '_sequence') != None and "
+                                                   "live(field(field(e_rep, '_sequence'), '_sequence')) and isinst(field(field(e_rep, '_sequence'), '_sequence'), '" + P + "cpp_representation.cpp_value') and "
+                                                   "field(e_rep, '_node') != None and live(field(e_rep, '_node'))"),
+                                  ("inner_type", "field(field(e_rep, '_sequence'), '_type', '" + SEQ_CLS + "') == None or "
+                                                 "(isinst(field(field(e_rep, '_sequence'), '_type', '" + SEQ_CLS + "'), 'func_adl_xAOD.common.cpp_types.collection') and "
+                                                 "field(field(field(e_rep, '_sequence'), '_type', '" + SEQ_CLS + "'), '_tree_type') == None)"),
+                                  ("scopes", "scope_fill != None and live(scope_fill) and field(e_rep, '_scope', '" + SEQ_CLS + "') != None and live(field(e_rep, '_scope', '" + SEQ_CLS + "')) and "
+                                             "field(field(e_rep, '_sequence'), '_scope', '" + SEQ_CLS + "') != None and live(field(field(e_rep, '_sequence'), '_scope', '" + SEQ_CLS + "'))"),
+                                  ("storage", "e_name != None and live(e_name)"),
+                                  ("cursor", "len(cursor(self)) >= 1 and all(b != None and live(b) for b in cursor(self))"),
+                                  ("open_blocks", "all(b != None and live(b) for b in stack_of(scope_fill)) and len(stack_of(scope_fill)) >= 1 and "
+                                                  "all(b != None and live(b) for b in stack_of(field(e_rep, '_scope', '" + SEQ_CLS + "'))) and len(stack_of(field(e_rep, '_scope', '" + SEQ_CLS + "'))) >= 1 and "
+                                                  "all(b != None and live(b) for b in stack_of(field(field(e_rep, '_sequence'), '_scope', '" + SEQ_CLS + "'))) and "
+                                                  "len(stack_of(field(field(e_rep, '_sequence'), '_scope', '" + SEQ_CLS + "'))) >= 1")],
+         modifies=CVC_MODIFIES + ["_collection", "_element", "_target", "_value", "_expression", "_scope", "_cpp_type", "_initial_value", "_type@" + SEQ_CLS],
+         may_raise=["Exception"], strict=False,
+         local_sorts=dict(g_push=TList(Ref), storage=VAL), ghost_init=["g_push = []"],
+         ghost={"after:self._gc.add_statement(statement.push_back(accumulator, inner))": ["g_push = g_push + [last_stmt(top_block(cursor(self)))]"]},
+         ensures=[("two_levels_two_push_backs@C05,C03", "len(final_g_push) == 2 and cls_is(final_g_push[0], '" + PUSHB + "') and cls_is(final_g_push[1], '" + PUSHB + "')"),
+                  ("inner_elements_into_a_new_vector_that_goes_into_the_column@C05,C03",
+                   "field(final_g_push[1], '_target') == e_name and field(final_g_push[0], '_value') == field(field(e_rep, '_sequence'), '_sequence') and "
+                   "field(final_g_push[0], '_target') == field(final_g_push[1], '_value') and is_new(field(final_g_push[0], '_target')) and "
+                   "cls_is(field(final_g_push[0], '_target'), '" + P + "cpp_representation.cpp_variable') and startswith(expr_of(field(final_g_push[0], '_target')), 'ntuple') and "
+                   "field(field(final_g_push[0], '_target'), '_initial_value') == None"),
+                  ("fill_scope_unchanged@C05", "result == scope_fill")] + CVC_ENSURES)
